@@ -48,7 +48,8 @@ class YowInterfaceLayer(YowLayer):
         """
         if entity.getTag() == "iq":
             iq_id = entity.getId()
-            if iq_id in self.iqRegistry:
+            # only a reply consumes the pending request: a get/set stanza that happens to carry the same id is not one
+            if iq_id in self.iqRegistry and entity.getType() in (IqProtocolEntity.TYPE_RESULT, IqProtocolEntity.TYPE_ERROR):
                 originalIq, successClbk, errorClbk = self.iqRegistry[iq_id]
                 del self.iqRegistry[iq_id]
 
